@@ -243,13 +243,22 @@ def run_real(cfg, sched_seed=0):
                         rec['factors'].append(None)
                 model.zero_grad()
             elif op == 'k':
-                # keep a checkpoint (deep copy) for a later roll-back of THIS preconditioner object
-                kept_state = copy.deepcopy(p.state_dict())
-            elif op == 'b':
+                # keep a checkpoint for later roll-backs of THIS preconditioner object; `kept_ref` is what it held
+                kept_state = p.state_dict()
+                kept_ref = copy.deepcopy(kept_state)
+            elif op in ('b', 'B'):
+                # 'b': load a deep copy; 'B': load the kept object itself (a shallow dict copy: load pops 'layers'), so
+                # that the preconditioner and the checkpoint may end up sharing tensors
                 with warnings.catch_warnings():
                     warnings.simplefilter('ignore')
-                    p.load_state_dict(copy.deepcopy(kept_state), compute_inverses=True)
+                    p.load_state_dict(copy.deepcopy(kept_state) if op == 'b' else dict(kept_state), compute_inverses=True)
                 rec['steps'] = p.steps
+                rec['held_vs_kept'] = []
+                for (n, l), fw in zip(p._layers.values(), out['fw']):
+                    if fw == rank and 'layers' in kept_ref:
+                        a_, g_ = l.a_factor, l.g_factor
+                        ka, kg = kept_ref['layers'][n]['A'], kept_ref['layers'][n]['G']
+                        rec['held_vs_kept'].append((n, a_ is not None and g_ is not None and torch.equal(a_, ka) and torch.equal(g_, kg)))
             elif op in ('v', 'l1', 'l0'):
                 sd = p.state_dict()
                 rec['state_keys'] = sorted(sd.keys())
